@@ -237,6 +237,10 @@ func (r *Run) ExecOps() {
 			fs.CurSub = 0
 		}
 		r.execOp(op)
+		if s := sim.S; s != nil && s.Spawned() > 0 && r.Obs.Chance(50) {
+			// goroutines started by the code under test get their turn between operations
+			s.Drain()
+		}
 		if r.H.OpDone != nil {
 			r.H.OpDone(r, i, op)
 		}
